@@ -323,13 +323,45 @@ def parse_tla_value(s):
     return val()
 
 
-def monitor(work, module, cfg, events, evid, timeout=900, deque=False, heap=None):
+def monitor_chunked(work, module, cfg, events, evid, chunk=1500, par=8, timeout=900):
+    """For monitors whose verdict on an event does not depend on earlier events (one event = one complete run): the
+    recorded events are cut into chunks validated by parallel TLC runs; line numbers are mapped back."""
+    lines = open(events).read().splitlines()
+    if len(lines) <= chunk:
+        return monitor(work, module, cfg, events, evid, timeout=timeout)
+    from concurrent.futures import ThreadPoolExecutor
+    parts = []
+    for k in range(0, len(lines), chunk):
+        pth = work.path("%s.part%d.ndjson" % (os.path.basename(events), k // chunk))
+        open(pth, "w").write("\n".join(lines[k:k + chunk]) + "\n")
+        parts.append((k, pth))
+
+    def one(kp):
+        k, pth = kp
+        sub = {}
+        d = monitor(work, module, cfg, pth, sub, timeout=timeout, tag="%s-mon-%d" % (module, k // chunk), quiet=True)
+        return k, d, sub
+    devs = []
+    t0 = time.time()
+    with ThreadPoolExecutor(par) as ex:
+        for k, d, sub in ex.map(one, parts):
+            for x in d:
+                x["line"] += k
+            devs.extend(d)
+            for key, v in sub.items():
+                evid[key] = evid.get(key, 0) + v
+    devs.sort(key=lambda d: d["line"])
+    log("monitor %s: %d events in %d chunks, %d deviations, %.1fs" % (module, len(lines), len(parts), len(devs), time.time() - t0))
+    return devs
+
+
+def monitor(work, module, cfg, events, evid, timeout=900, deque=False, heap=None, tag=None, quiet=False):
     """Run the trace spec over the recorded events; returns list of deviations
     [{line, ev, guards}] parsed from the VIOL report. A monitor that does not consume the whole
     trace is inconclusive."""
     n = sum(1 for _ in open(events))
     r = tlc(work, module, cfg, workers=1, timeout=timeout, files={"trace.ndjson": events}, deque=deque, heap=heap,
-            tag=module + "-mon")
+            tag=tag or (module + "-mon"))
     out = r["out"]
     m = re.search(r'<<"VIOL", (".*")>>', out)
     if not m:
@@ -346,7 +378,8 @@ def monitor(work, module, cfg, events, evid, timeout=900, deque=False, heap=None
         raise Inconclusive("monitor %s: guard set and action disagree (specification bug): %s" % (module, devs[:3]))
     evid["monitor_states"] = evid.get("monitor_states", 0) + r["distinct"]
     evid["events_validated"] = evid.get("events_validated", 0) + n
-    log("monitor %s: %d events, %d deviations, %.1fs" % (module, n, len(devs), r["wall"]))
+    if not quiet:
+        log("monitor %s: %d events, %d deviations, %.1fs" % (module, n, len(devs), r["wall"]))
     return devs
 
 
@@ -376,6 +409,10 @@ def match_known(prop, sig, known):
                     ok = False
             elif isinstance(v, dict) and "subset_of" in v:
                 if not (isinstance(sv, list) and set(sv) <= set(v["subset_of"])):
+                    ok = False
+            elif isinstance(v, dict) and "contains_any_of" in v:
+                # the signature's set contains one of the listed sets (e.g. a triple of operations containing a listed pair)
+                if not (isinstance(sv, list) and any(set(x) <= set(sv) for x in v["contains_any_of"])):
                     ok = False
             elif isinstance(v, dict) and "nonempty_subset_of" in v:
                 if not (isinstance(sv, list) and sv and set(sv) <= set(v["nonempty_subset_of"])):
